@@ -69,9 +69,9 @@ contract(M + 'logit.logit', P, types=_UD, modifies=[],
 # logmev: log P_c = (V_c + lnG_c) - log sum_{available j} exp(V_j + lnG_j), in the shifted form of the kernel
 _H = lambda k: f"(c05c_val(util[{k}]) + c05c_val(log_gi[{k}]))"      # noqa: E731
 _CHM = 'int(c05c_num(choice))'
-_KM = 'c05c_key(util, q)'
+_KM = 'keys_of(util)[q]'
 _AVM = "typed(av, 'dict[int, Expression]')"
-_SAMEM = 'forall(lambda q: c05c_key(util, q) in av, 0, len(util))'
+_SAMEM = 'forall(lambda q: keys_of(util)[q] in av, 0, len(util))'
 _T_AV_M = f"ite(c05c_val({_AVM}[{_KM}]) != 0.0, app('numpy.exp', {_H(_KM)} - {_H(_CHM)}), 0.0)"
 _T_FULL_M = f"app('numpy.exp', {_H(_KM)} - {_H(_CHM)})"
 _A_AV_M = (f"av is not None and {_CHM} in util and {_CHM} in av and {_SAMEM} and c05c_val({_AVM}[{_CHM}]) != 0.0")
@@ -80,13 +80,13 @@ _A_FULL_M = f"av is None and {_CHM} in util"
 _RES = "typed(result, 'LogLogit')"
 _F = N._F_AV.replace('NODE', _RES)
 _S_RES = N._S_NODE.replace('NODE', _RES)
-_NODE_UTIL = (f"len({_RES}.util) == len(util) and forall(lambda q: c05c_key({_RES}.util, q) == c05c_key(util, q) and "
-              f"c05c_val({_RES}.util[c05c_key({_RES}.util, q)]) == {_H(_KM)}, 0, len(util)) and "
+_NODE_UTIL = (f"len({_RES}.util) == len(util) and forall(lambda q: keys_of({_RES}.util)[q] == keys_of(util)[q] and "
+              f"c05c_val({_RES}.util[keys_of({_RES}.util)[q]]) == {_H(_KM)}, 0, len(util)) and "
               f"implies({_CHM} in util, c05c_val({_RES}.util[{_CHM}]) == {_H(_CHM)}) and "
               f"c05c_val({_RES}.choice) == c05c_num(choice) and "
-              f"implies(av is not None, forall(lambda q: implies(c05c_key(util, q) in {_AVM}, "
-              f"{_RES}.av[c05c_key({_RES}.util, q)] is {_AVM}[c05c_key(util, q)]), 0, len(util))) and "
-              f"implies(av is None, forall(lambda q: c05c_val({_RES}.av[c05c_key({_RES}.util, q)]) == 1, 0, len(util)))")
+              f"implies(av is not None, forall(lambda q: implies(keys_of(util)[q] in {_AVM}, "
+              f"{_RES}.av[keys_of({_RES}.util)[q]] is {_AVM}[keys_of(util)[q]]), 0, len(util))) and "
+              f"implies(av is None, forall(lambda q: c05c_val({_RES}.av[keys_of({_RES}.util)[q]]) == 1, 0, len(util)))")
 LOGMEV_ENSURES = {
     'kernel': f"c05c_cut('kernel:terms-agree', lambda: implies({_A_AV_M}, forall(lambda q: {_F} == {_T_AV_M}, 0, len(util)))) and "
               f"c05c_cut('kernel:sums-agree', lambda: implies({_A_AV_M}, {_S_RES} == sum_range(lambda q: {_T_AV_M}, 0, len(util)))) and "
@@ -119,8 +119,8 @@ for V, G, av, ch in cands:
         break
 '''
 _UDM = {'util': 'dict[int, Expression]', 'log_gi': 'dict[int, Expression]', 'av': 'dict[int, Expression] | None'}
-_H_DICT = (f"len(h) == len(util) and forall(lambda q: c05c_key(h, q) == c05c_key(util, q) and "
-           f"c05c_val(h[c05c_key(util, q)]) == {_H(_KM)}, 0, len(util)) and "
+_H_DICT = (f"len(h) == len(util) and forall(lambda q: keys_of(h)[q] == keys_of(util)[q] and "
+           f"c05c_val(h[keys_of(util)[q]]) == {_H(_KM)}, 0, len(util)) and "
            "forall(lambda x: (x in h) == (x in util), ty='int')")
 contract(M + 'mev.logmev', P, types=_UDM, modifies=[],
          # explicit proof steps (cuts) at the return point: the local dictionary h, then the node built from it
@@ -128,12 +128,12 @@ contract(M + 'mev.logmev', P, types=_UDM, modifies=[],
                 f"c05c_cut('step2:h-at-the-chosen-alternative', lambda: implies({_CHM} in util, c05c_val(h[{_CHM}]) == {_H(_CHM)}))",
                 "c05c_cut('step3:node-utilities', lambda: " + _NODE_UTIL.replace(_RES, "typed(log_p, 'LogLogit')") + ")"],
          requires={'python_dict': 'c05c_dict_wf(av)',
-                   'generating_terms_for_every_alternative': 'forall(lambda q: c05c_key(util, q) in log_gi, 0, len(util))'},
+                   'generating_terms_for_every_alternative': 'forall(lambda q: keys_of(util)[q] in log_gi, 0, len(util))'},
          raises={'TypeError': N._NOT_OPERAND.format('choice')},
          ensures=LOGMEV_ENSURES, replay=_REPLAY_MEV)
 
 _REQ_M = {'python_dict': 'c05c_dict_wf(av)',
-          'generating_terms_for_every_alternative': 'forall(lambda q: c05c_key(util, q) in log_gi, 0, len(util))'}
+          'generating_terms_for_every_alternative': 'forall(lambda q: keys_of(util)[q] in log_gi, 0, len(util))'}
 contract(M + 'mev.mev', P, types=_UDM, modifies=[], requires=_REQ_M,
          raises={'TypeError': N._NOT_OPERAND.format('choice')},
          ensures={
